@@ -276,9 +276,12 @@ impl Prop for Read {
         let flen = match u.below(6)? {
             0 => 0usize,
             1 => *u.choose(&[1usize, 9, 10, 19, 20, 21, 40])?,
+            // "any number of fraction digits": lengths at and around the sizes where a length is
+            // capped, buffered or stored in a narrower type
+            2 => (*u.choose(&[31usize, 32, 63, 64, 65, 127, 128, 129, 255, 256, 257, 1023, 1024, 1025, 4096, 65_535, 65_536])? as i64 + u.range_i64(-1, 1)?) as usize,
             _ => u.int_in_range(1..=40usize)?,
         };
-        let fstyle = u.below(5)?;
+        let fstyle = if flen > 40 { u.below(3)? } else { u.below(5)? };
         let mut frac = String::new();
         for k in 0..flen {
             frac.push(match fstyle {
@@ -344,7 +347,7 @@ impl Prop for Read {
         Ok(c)
     }
     fn check(c: &ReadCase, cx: &mut Cx) -> Verdict {
-        if c.y > 9999 || c.mo > 99 || c.d > 99 || c.h > 99 || c.mi > 99 || c.s > 99 || c.zh > 99 || c.zm > 99 || c.zsign > 2 || c.frac.len() > 60 || !c.frac.chars().all(|ch| ch.is_ascii_digit()) {
+        if c.y > 9999 || c.mo > 99 || c.d > 99 || c.h > 99 || c.mi > 99 || c.s > 99 || c.zh > 99 || c.zm > 99 || c.zsign > 2 || c.frac.len() > 1 << 17 || !c.frac.chars().all(|ch| ch.is_ascii_digit()) {
             return Verdict::Skip("malformed case");
         }
         let st = Stamp {
@@ -375,6 +378,9 @@ impl Prop for Read {
             }
             if c.frac.len() > 9 {
                 cx.nt("fraction_longer_than_9");
+            }
+            if c.frac.len() > 60 {
+                cx.nt("fraction_longer_than_60_digits");
             }
             if c.frac.len() >= 20 {
                 cx.nt("fraction_20+_digits");
